@@ -601,6 +601,21 @@ def check_alias_kw(tcls, cls_name, mode="ctx"):
     return ("ok", None)
 
 
+def check_customfn_alias(cls_name, mode="ctx"):
+    import pypika_tortoise as P
+
+    f = P.CustomFunction("fnc", ["x", "y"])
+    c = P.Field("c", table=P.Table("t"))
+    try:
+        s_as = render(statement(cls_name, "select_last", f(c, 2).as_(ALIAS)), cls_name, mode)
+        s_kw = render(statement(cls_name, "select_last", f(c, 2, alias=ALIAS)), cls_name, mode)
+    except Exception as e:
+        return [(mksig("CustomFunction", "alias_kw", "raises:" + type(e).__name__), repr(e))]
+    if s_as != s_kw:
+        return [(mksig("CustomFunction", "alias_kw", "alias_kw_differs"), "CustomFunction call with alias=%r gives %r, .as_() gives %r" % (ALIAS, s_kw, s_as))]
+    return []
+
+
 def sig_of(tcls, pos, kind, cls_name="generic"):
     if pos == "alias_kw":
         return mksig(class_key(tcls), "alias_kw", kind)  # every constructor passes its alias on by itself
@@ -653,6 +668,8 @@ def find_class(name):
 
 
 def check_case(case):
+    if case.get("family") == "customfn_alias":
+        return check_customfn_alias(case["cls"], case.get("mode", "ctx"))
     tcls = find_class(case["term"])
     if case.get("family") == "reuse":
         r = check_reuse(tcls, case["cls"], case["clause"], case.get("mode", "ctx"))
@@ -673,6 +690,8 @@ def check_case(case):
 
 def valid_case(case):
     try:
+        if case.get("family") == "customfn_alias":
+            return case["cls"] in CTXS
         find_class(case["term"])
         return case["cls"] in CTXS
     except (Exception, HarnessError):
@@ -740,6 +759,13 @@ def run_shard(shard):
             col.case(case, True, classes=("alias_kw",))
             if r[0] == "viol":
                 col.violation(sig_of(tcls, "alias_kw", r[1], cls_name), case, r[2])
+    # a user-declared function (CustomFunction is a factory, not a Term class): alias= of the call is what as_() gives
+    import pypika_tortoise as P
+    for mode in ("ctx", "par"):
+        case = {"family": "customfn_alias", "cls": cls_name, "mode": mode}
+        col.case(case, True, classes=("alias_kw",))
+        for sig, detail in check_customfn_alias(cls_name, mode):
+            col.violation(sig, case, detail)
     col.notes["uncovered"] = sorted(uncovered)
     col.notes["term_classes_discovered"] = "%d" % len(term_classes())
     col.exhaustive = True
